@@ -35,7 +35,7 @@ THEOREMS = [
     "Ural.Props.C06.walkLaws_py",
 ]
 TABLE_OBLIGATIONS = [
-    "Ural.Props.C06.langQueryKeys_eq",
+    "Ural.Props.C06.langQueryKeys_has",
     "Ural.Props.C06.lang_keys_in_no_combo",
     "Ural.Props.C06.isoCountries_upper",
 ]
@@ -66,8 +66,8 @@ RULE = (
 )
 EXHAUSTIVE = {
     "quick": "all 676 two-letter labels (the 249 ISO codes and the 427 non-codes) on 4 hosts; gl/hl/GL/hL x 7 values at every "
-    "position of 12 query shapes; ports None,1,80,443,8080,65535,... on 41 bases x 4 option pairs, every 97th port 1..65535 on one "
-    "base; all ordered pairs of 14 suffixes (1-3 labels, incl. private and 'www.ro') x 6 domain shapes; 10 case components on 56 bases",
+    "position of 12 query shapes; ports None,1,80,443,8080,65535,... on 41 bases x 4 option pairs, 29 well-known ports on 6 bases, every 31st port 1..65535 "
+    "(seeded offset) on one base; all ordered pairs of 14 suffixes (1-3 labels, incl. private and 'www.ro') x 6 domain shapes; 10 case components on 56 bases",
     "thorough": "as quick, plus every port 1..65535 on one base and every 7th on a second (both option bits on), the two-letter "
     "sweep with strip_suffix on every host, 6000 xx-yy pairs, 40000 random suffix pairs from the whole bundled list",
 }
@@ -192,6 +192,8 @@ QUERY_BASES = ["http://a.com/p", "http://a.com/p?", "http://a.com/p?a=1", "http:
 LANG_VALUES = ["fr", None, "", "en-US", "%46R", "a=b", "fr#x"[:2]]
 LANG_KEYS = ["gl", "hl", "GL", "hL"]
 PORTS_SMALL = [None, "1", "80", "443", "8080", "65535", "2", "81", "444", "65534", "0080", "1000"]
+WELL_KNOWN_PORTS = [21, 22, 25, 53, 79, 81, 110, 442, 444, 591, 1080, 3000, 3128, 4443, 5000, 5432, 8000, 8008, 8081, 8088, 8443, 8888, 9000,
+                    9090, 9200, 9443, 32768, 49152, 65534]
 LABEL_HOSTS = ["http://a.com/p", "http://www.example.co.uk/p?x=1", "http://com/p", "http://x.a.com/p"]
 NON_LANG = ["xx", "zz", "aa", "fra", "f", "fr-xx", "xx-fr", "fr_fr", "fr-f", "f-fr", "frfr", "fr-fra", "en-u", "q1", "1a", "fr-", "-fr", "f1", "uk", "en", "fr.fr"[:2] + "x"]
 SWAP_D = ["x", "www.x", "fr.x", "a.b", "x-y", "fr"]
@@ -234,8 +236,11 @@ def cases(rng, tier):
         for p in PORTS_SMALL:
             for ss, pa in grid:
                 yield _c(u, ["port", p], ss, pa)
-    step = 97 if quick else 1
-    for p in range(1, 65536, step):
+    for u in FIXED_BASES[:6]:
+        for p in WELL_KNOWN_PORTS:
+            yield _c(u, ["port", str(p)], u != FIXED_BASES[0], False)
+    step = 31 if quick else 1
+    for p in range(1 + (rng.randrange(step) if quick else 0), 65536, step):
         yield _c("http://www.a.com/p?x=1", ["port", str(p)], False, False)
     if not quick:
         for p in range(1, 65536, 7):
